@@ -73,6 +73,7 @@ static string typeOf(char kind) {
     case 'N': return "UCH";
     case 'W': return "UIN";
     case 'S': return "STR:2";
+    case 'L': return "ULG";
     case 'i': return "IGN:1";
     case 'j': return "IGN:2";
     default: return "?";
@@ -96,6 +97,7 @@ static string csvOf(const Config& c) {
   };
   for (const Part& p : c.parts) define(p);
   if (c.alt) define(c.altPart);
+  for (const Part& p : c.extras) define(p);
   string guard;
   for (const Part& p : c.parts) guard += "[" + p.condName + "]";
   s += guard + "r,c,g,,,08,b509,0d0100,x,,UCH\n";
@@ -111,6 +113,7 @@ static string dataHex(const MsgDef& m, const ValueVector& vv) {
     switch (m.fields[i].kind) {
       case 'N': snprintf(b, sizeof(b), "%02x", vv[i].num & 0xff); data += b; break;
       case 'W': snprintf(b, sizeof(b), "%02x%02x", vv[i].num & 0xff, (vv[i].num >> 8) & 0xff); data += b; break;
+      case 'L': snprintf(b, sizeof(b), "%02x%02x%02x%02x", vv[i].num & 0xff, (vv[i].num >> 8) & 0xff, (vv[i].num >> 16) & 0xff, (vv[i].num >> 24) & 0xff); data += b; break;
       case 'i': snprintf(b, sizeof(b), "%02x", vv[i].num & 0xff); data += b; break;        // filler byte differs from the
       case 'j': snprintf(b, sizeof(b), "%02x00", vv[i].num & 0xff); data += b; break;      // neighbouring field values
       case 'P': snprintf(b, sizeof(b), "%02x%02x", ((vv[i].num / 1000 % 10) << 4) | (vv[i].num / 100 % 10), ((vv[i].num / 10 % 10) << 4) | (vv[i].num % 10)); data += b; break;
@@ -201,7 +204,10 @@ struct World {
     ebusd::SlaveSymbolString slave;
     if (master.parseHex(masterHex(m, c.values[static_cast<size_t>(msg)][static_cast<size_t>(vec)])) != RESULT_OK) return false;
     if (slave.parseHex(slaveHex(m, c.values[static_cast<size_t>(msg)][static_cast<size_t>(vec)])) != RESULT_OK) return false;
-    Message* r = m.scan() ? ref[static_cast<size_t>(msg)] : locate(master);
+    // also the identification answer of 08 is located by its telegram, as BusHandler does for every identification
+    // after the first one (the first goes to getScanMessage(08), the same object in a correct implementation)
+    Message* r = locate(master);
+    if (!r && m.scan()) r = ref[static_cast<size_t>(msg)];
     if (!r) return false;
     return r->storeLastData(master, slave) == RESULT_OK;
   }
@@ -312,6 +318,13 @@ static Judged judgeResolve(const Config& c, const World& w, string caseStr, stri
     int r = refResolvable(c, c.altPart, &j.altTarget);
     if (r <= 0) { fprintf(stderr, "c13: bad alt configuration %s\n", c.desc.c_str()); exit(3); }
   }
+  bool guardOk = expectAll;  // every condition that guards a message is resolvable
+  for (const Part& p : c.extras) {
+    int t = -1;
+    int r = refResolvable(c, p, &t);
+    if (r < 0) { fprintf(stderr, "c13: configuration %s is not fixed by the statement\n", c.desc.c_str()); exit(3); }
+    if (r == 0) { expectAll = false; if (!firstBad) firstBad = &p; }
+  }
   const Part& blame = firstBad ? *firstBad : c.parts[0];
   char b[160];
   if (log) {
@@ -331,19 +344,25 @@ static Judged judgeResolve(const Config& c, const World& w, string caseStr, stri
   }
   if (implOk != expectAll) {
     j.ok = false;
-    R.violation(sigOf(c, expectAll ? "resolve-rejected" : "resolve-accepted", blame, ""),
+    R.violation(sigOf(c, expectAll ? "resolve-rejected" : "resolve-accepted", blame, "") + (c.extras.empty() ? "" : "-mixed"),
                 string("resolveConditions ") + (implOk ? "succeeded" : "failed (" + w.resolveError + ")") + " but the referenced message/field " +
                 (expectAll ? "exists with the required kind" : "does not exist with the required kind") + ": " + c.desc, caseStr);
     return j;
   }
-  j.explorable = expectAll && w.g != nullptr;
-  for (Message* r : w.ref) if (expectAll && r == nullptr) j.explorable = false;
-  if (expectAll && !j.explorable) { fprintf(stderr, "c13: objects of %s not found after load\n", c.desc.c_str()); exit(3); }
+  // a condition that guards nothing and does not resolve must make resolveConditions fail, but the resolvable ones
+  // still guard their messages
+  j.explorable = guardOk && w.g != nullptr;
+  for (Message* r : w.ref) if (guardOk && r == nullptr) j.explorable = false;
+  if (guardOk && !j.explorable) { fprintf(stderr, "c13: objects of %s not found after load\n", c.desc.c_str()); exit(3); }
   return j;
 }
 
 // applies ops to a fresh world; returns false on harness error
-struct Step { string canon; World::Obs obs; Expect exp; bool isQuery = false; bool mismatchAvail = false, mismatchFind = false; };
+struct Step {
+  string canon; World::Obs obs; Expect exp; bool isQuery = false; bool mismatchAvail = false, mismatchFind = false;
+  bool mismatchChange = false;  // rule change-time: the referenced message's change time is the time of its last value change
+  string changeDetail;
+};
 static bool runHistory(const Config& c, const Judged& j, World* w, const vector<Op>& ops, RefState* rs, Step* lastStep, string* log) {
   char b[256];
   for (size_t i = 0; i < ops.size(); i++) {
@@ -351,7 +370,19 @@ static bool runHistory(const Config& c, const Judged& j, World* w, const vector<
     Step st;
     if (o.k == 'S') {
       if (static_cast<size_t>(o.msg) >= c.msgs.size() || static_cast<size_t>(o.vec) >= c.values[static_cast<size_t>(o.msg)].size()) return false;
+      Message* watched = w->ref[static_cast<size_t>(o.msg)];
+      time_t changeBefore = watched->getLastChangeTime();
+      bool valueChanges = rs->last[static_cast<size_t>(o.msg)] != o.vec;
       if (!w->store(c, o.msg, o.vec)) return false;
+      time_t changeAfter = watched->getLastChangeTime();
+      time_t expectChange = valueChanges ? g_now : changeBefore;
+      if (changeAfter != expectChange) {
+        st.mismatchChange = true;
+        snprintf(b, sizeof(b), "getLastChangeTime() of the referenced message is %s%ld after storing %s value at t=+%lds, expected %s%ld",
+                 changeAfter == 0 ? "" : "t=+", changeAfter == 0 ? 0L : static_cast<long>(changeAfter - T0), valueChanges ? "a different" : "the same",
+                 static_cast<long>(g_now - T0), expectChange == 0 ? "" : "t=+", expectChange == 0 ? 0L : static_cast<long>(expectChange - T0));
+        st.changeDetail = b;
+      }
       if (log) {
         const MsgDef& m = c.msgs[static_cast<size_t>(o.msg)];
         snprintf(b, sizeof(b), "%-5s t=+%lds store %s: %s (master %s slave %s)\n", o.str().c_str(), static_cast<long>(g_now - T0), m.scan() ? "scan.08" : m.name.c_str(),
@@ -359,6 +390,7 @@ static bool runHistory(const Config& c, const Judged& j, World* w, const vector<
                  masterHex(m, c.values[static_cast<size_t>(o.msg)][static_cast<size_t>(o.vec)]).c_str(),
                  slaveHex(m, c.values[static_cast<size_t>(o.msg)][static_cast<size_t>(o.vec)]).c_str());
         *log += b;
+        if (st.mismatchChange) *log += "      " + st.changeDetail + "   <-- MISMATCH\n";
       }
     } else if (o.k == 'T') {
       g_now++;
@@ -405,9 +437,15 @@ static string timingClass(const Config& c, const Judged& j, const vector<Op>& h)
 }
 
 static uint64_t g_states = 0;
+static uint64_t totalViolations() {
+  uint64_t n = 0;
+  for (auto& kv : R.violations) n += kv.second.count;
+  return n;
+}
 
 static void explore(const Config& c, int depth, bool crossCheck) {
   string base = c.desc;
+  const uint64_t violationsBefore = totalViolations();
   Judged j;
   {
     World w;
@@ -463,6 +501,10 @@ static void explore(const Config& c, int depth, bool crossCheck) {
         if (!runHistory(c, j, &w, one, &rs, &st, nullptr)) { fprintf(stderr, "c13: cannot apply %s\n", alphabet[a].str().c_str()); exit(3); }
         R.evaluations++;
         R.transitions += h.size();
+        if (st.mismatchChange) {
+          R.tracesValidated++;
+          R.violation(sigOf(c, "change-time-mismatch", c.parts[0], ""), st.changeDetail + " after " + opsStr(h) + ": " + c.desc, base + ";ops=" + opsStr(h));
+        }
         if (st.isQuery) {
           R.tracesValidated++;
           string cs = base + ";ops=" + opsStr(h);
@@ -506,8 +548,9 @@ static void explore(const Config& c, int depth, bool crossCheck) {
   if (crossCheck) {
     int cd = std::min(depth, 4);
     vector<Op> h;
+    bool abandon = false;
     std::function<void(const string&, int)> rec = [&](const string& canonHere, int left) {
-      if (left == 0) return;
+      if (left == 0 || abandon) return;
       auto it = visited.find(canonHere);
       if (it == visited.end() || it->second.empty()) return;  // state at the search horizon: no table
       for (size_t a = 0; a < alphabet.size(); a++) {
@@ -520,12 +563,21 @@ static void explore(const Config& c, int depth, bool crossCheck) {
         char ob[32];
         snprintf(ob, sizeof(ob), "|%d%d%d%d", st.isQuery ? st.obs.avail : 9, st.isQuery ? st.obs.availAlt : 9, st.isQuery ? st.obs.byName : 9, st.isQuery ? st.obs.byKey : 9);
         if (it->second[a] != st.canon + ob) {
+          if (totalViolations() > violationsBefore) {
+            // the monitor already reported violations for this configuration: behaviour beyond the canonical state is a
+            // consequence of the defect; the self-test of the abstraction only fires when no rule did
+            R.count("crosscheck_differences_after_violations");
+            h.pop_back();
+            abandon = true;
+            return;
+          }
           fprintf(stderr, "c13: canonical state abstraction unsound for %s ops=%s: %s vs %s\n", c.desc.c_str(), opsStr(h).c_str(), it->second[a].c_str(), (st.canon + ob).c_str());
           exit(3);
         }
         R.count("stateless_histories_cross_checked");
         R.transitions += h.size();
         rec(st.canon, left - 1);
+        if (abandon) return;
         h.pop_back();
       }
     };
@@ -545,14 +597,14 @@ static bool docEval(const string& text, unsigned v) {
     if (t.empty()) continue;
     if (t[0] == '<' || t[0] == '>') {
       bool incl = t.size() > 1 && t[1] == '=';
-      unsigned n = static_cast<unsigned>(atoi(t.c_str() + (incl ? 2 : 1)));
+      unsigned n = static_cast<unsigned>(strtoul(t.c_str() + (incl ? 2 : 1), nullptr, 10));
       if (t[0] == '<' ? (incl ? v <= n : v < n) : (incl ? v >= n : v > n)) return true;
     } else {
       size_t dash = t.find('-');
       if (dash != string::npos) {
-        unsigned a = static_cast<unsigned>(atoi(t.substr(0, dash).c_str())), b = static_cast<unsigned>(atoi(t.c_str() + dash + 1));
+        unsigned a = static_cast<unsigned>(strtoul(t.substr(0, dash).c_str(), nullptr, 10)), b = static_cast<unsigned>(strtoul(t.c_str() + dash + 1, nullptr, 10));
         if (a <= v && v <= b) return true;
-      } else if (v == static_cast<unsigned>(atoi(t.c_str()))) {
+      } else if (v == static_cast<unsigned>(strtoul(t.c_str(), nullptr, 10))) {
         return true;
       }
     }
@@ -565,6 +617,13 @@ static bool selfTest(string* why) {
     for (unsigned v = 0; v <= 6; v++) {
       bool inTable = std::find(s.nums.begin(), s.nums.end(), v) != s.nums.end();
       bool inAlphabet = v >= 1 && v <= 4;
+      if (inAlphabet && docEval(s.text, v) != inTable) { *why = string("shape table ") + s.name + " disagrees with its text"; return false; }
+    }
+  }
+  for (const Shape& s : bigShapes()) {
+    for (unsigned v : {0u, 2u, 3u, 65534u, 65535u, 65536u, 65537u, 4294967293u, 4294967294u}) {
+      bool inAlphabet = v == BIGS[0] || v == BIGS[1] || v == BIGS[2] || v == BIGS[3];
+      bool inTable = std::find(s.nums.begin(), s.nums.end(), v) != s.nums.end();
       if (inAlphabet && docEval(s.text, v) != inTable) { *why = string("shape table ") + s.name + " disagrees with its text"; return false; }
     }
   }
@@ -649,6 +708,7 @@ static int replay(const string& cs) {
     vector<Op> one(1, ops[i]);
     Step st;
     if (!runHistory(c, j, &w, one, &rs, &st, &log)) { printf("%shistory cannot be replayed\n", log.c_str()); return 2; }
+    if (st.mismatchChange) bad = true;
     if (st.isQuery && (st.mismatchAvail || st.mismatchFind)) {
       bad = true;
       time_t keep = g_now;
